@@ -1,9 +1,16 @@
 """C15 -- Neurolucida ASC conversion: sidecar contracts (no edit of /repo).
 
 Part 1  Parser over an ABSTRACT TOKEN STREAM and an ABSTRACT AST HEAP (pyvc/ext_C15.py states both abstractions).
-Part 2  NeurolucidaAscToSwc.from_ast / walk_ast on small fixed-shape ASTs (bounded shapes, symbolic numbers).
+Part 2  NeurolucidaAscToSwc.from_ast / walk_ast: small fixed-shape ASTs (bounded shapes, symbolic numbers), and an ARBITRARY abstract
+        AST in document order (symbolic size, depth and branch length; register_walk_general).
+Part 3a Lexer at CHARACTER level over an abstract character stream (pyvc/ext_C15_text.py): _read_char, _read_word, _read_line, _token,
+        __next__, __init__ on symbolic text.
+Part 3b The link: Parser._read_token / Parser.__init__ on the real Lexer (the abstract token stream of Part 1 is what they really do).
 Part 3  Lexer on concrete short inputs (effectively bounded: concrete strings).
+Lemmas  premature end of the token stream cannot be accepted; Lexer.__next__ is a function of the text and the look-ahead.
 """
+import os
+
 import z3
 
 from pyvc import ext_C15 as X
@@ -44,7 +51,10 @@ REMAINING = {"remaining": SpecFn(_remaining, "remaining")}  # tokens not yet con
 
 
 def nxt(v):
-    return to_z3(v["self"].fields["next_token"], "oref")
+    t = v["self"].fields["next_token"]
+    if isinstance(t, Obj):  # a real Token handed out by the linked lexer: the ghost stamp g_idx is its index in the stream
+        return to_z3(t.fields["g_idx"], "int") + 1
+    return to_z3(t, "oref")
 
 
 def tip(v):
@@ -533,6 +543,267 @@ def register_walk(R):
 
 
 # ---------------------------------------------------------------------------
+# walk_ast on an ARBITRARY abstract AST (pyvc/ext_C15.py: W_* ghost functions): any number of nodes, any nesting depth, any
+# branch length.  The AST is required to be numbered in document order (what the parser's allocation order gives):
+# references R0 .. END(R0)-1, the subtree of x is the interval [x, END(x)), children partition (x, END(x)) in order.
+# TREE nodes hang directly below the ROOT (the grammar of Parser._parse) and carry the label AXON or DENDRITE.
+def register_walk_general(R):
+    from pyvc.values import PDict, PList
+    from swcgeom.core.swc_utils import get_names, get_types
+
+    W = X
+    names, types = get_names(), get_types()
+
+    def stack_name():
+        """name of walk_ast's work list: the local initialised with a one-element list holding a pair (read from the current source)"""
+        import ast as _ast
+
+        from pyvc import extract
+
+        node, _, _ = extract.find(WALK)
+        found = [t.id for st in node.body if isinstance(st, (_ast.Assign, _ast.AnnAssign)) and isinstance(st.value, _ast.List) and len(st.value.elts) == 1
+                 and isinstance(st.value.elts[0], _ast.Tuple) for t in (st.targets if isinstance(st, _ast.Assign) else [st.target]) if isinstance(t, _ast.Name)]
+        return found[0] if len(found) == 1 else "stack"
+
+    try:
+        STACK = stack_name()
+    except Exception:  # reported when the carrier is verified
+        STACK = "stack"
+    KINDS7 = dict(id="int", type="int", x="real", y="real", z="real", r="real", pid="int")
+    NODE, TREE, ROOT = (lambda: X.at("NODE")), (lambda: X.at("TREE")), (lambda: X.at("ROOT"))
+
+    def setup(S):
+        import swcgeom.transforms.neurolucida_asc as _m
+        from pyvc import extract
+        from pyvc.engine import Frame
+        from pyvc.values import Func
+
+        S.eng.ghost["c15"] = {"walk": True}
+        r0, s0, L0, t0 = S.int("root"), S.int("first_free_id"), S.int("rows_before"), S.int("typee_len")
+        S.assume(z3.And(L0.z >= 0, t0.z >= 1))
+        cols = {c: PList.fresh(KINDS7[c], L0.z, name="col_" + c) for c in COLS7}
+        typee = PList.fresh("int", t0.z, name="typee")
+        ndata = PDict({getattr(names, c): cols[c] for c in COLS7})
+        clo = dict(next_id=s0, typee=typee, ndata=ndata, names=names, types=types)
+        clo["walk_ast"] = Func(extract.find(WALK)[0], Frame(vars=clo, globs=_m.__dict__), _m.__dict__, WALK)
+        pid = S.int("pid")
+        return dict(root=Sym(r0.z, "oref"), pid=pid, __closure__=clo,
+                    __ghost__=dict(clo=clo, R0=r0.z, s0=s0.z, L0=L0.z, t0=t0.z, pid0=pid.z, cols0={c: cols[c].cols[0] for c in COLS7}, typee0=typee.cols[0]))
+
+    G = lambda E, k: E.spec_extra[k]
+    CL = lambda E: E.spec_extra["clo"]  # the closure cells of from_ast (next_id, typee, ndata): the frame's own variables do not include them
+    E0 = lambda E: W.W_END(G(E, "R0"))
+    in_ast = lambda E, x: z3.And(x >= G(E, "R0"), x < E0(E))
+
+    # ---- the shape of the input AST (preconditions)
+    def pre_root(E, v, o):
+        r0 = G(E, "R0")
+        return z3.And(r0 >= 1, W.W_END(r0) > r0, W.W_KIND(r0) == ROOT(), W.W_ENCL(r0) == 0, W.W_RK(r0) == 0)
+
+    def pre_intervals(E, v, o):
+        x = z3.Int("wa!x")
+        n, e = W.W_NCH(x), W.W_END(x)
+        body = z3.And(n >= 0, x < e, e <= E0(E), z3.Implies(n == 0, e == x + 1),
+                      z3.Implies(n > 0, z3.And(W.W_CHILD(x, 0) == x + 1, W.W_END(W.W_CHILD(x, n - 1)) == e)))
+        return z3.ForAll([x], z3.Implies(in_ast(E, x), body), patterns=[W.W_NCH(x), W.W_END(x)])
+
+    def pre_children(E, v, o):
+        x, j = z3.Int("wa!x"), z3.Int("wa!j")
+        ch = W.W_CHILD(x, j)
+        body = z3.And(ch > x, ch < W.W_END(x), W.W_PAR(ch) == x, W.W_ENCL(ch) == z3.If(W.W_KIND(x) == TREE(), x, W.W_ENCL(x)))
+        return z3.ForAll([x, j], z3.Implies(z3.And(in_ast(E, x), j >= 0, j < W.W_NCH(x)), body), patterns=[ch])
+
+    def pre_siblings(E, v, o):
+        x, j, j2 = z3.Int("wa!x"), z3.Int("wa!j"), z3.Int("wa!j2")
+        return z3.ForAll([x, j, j2], z3.Implies(z3.And(in_ast(E, x), j >= 0, j2 == j + 1, j2 < W.W_NCH(x)), W.W_CHILD(x, j2) == W.W_END(W.W_CHILD(x, j))),
+                         patterns=[z3.MultiPattern(W.W_CHILD(x, j), W.W_CHILD(x, j2))])
+
+    def pre_kinds(E, v, o):
+        x = z3.Int("wa!x")
+        k = W.W_KIND(x)
+        lab = W.W_LABEL(x)
+        body = z3.And(k >= 1, k <= 5, (k == ROOT()) == (x == G(E, "R0")), z3.Implies(z3.Or(k == X.at("COLOR"), k == X.at("COMMENT")), W.W_NCH(x) == 0),
+                      z3.Implies(k == TREE(), z3.And(W.W_ENCL(x) == 0, z3.Or(lab == X.str_code("AXON"), lab == X.str_code("DENDRITE")))))
+        return z3.ForAll([x], z3.Implies(in_ast(E, x), body), patterns=[k])
+
+    def pre_rank(E, v, o):
+        y, y2 = z3.Int("wa!y"), z3.Int("wa!y2")
+        step = z3.ForAll([y], z3.Implies(in_ast(E, y), W.W_RK(y + 1) == W.W_RK(y) + z3.If(W.W_KIND(y) == NODE(), 1, 0)), patterns=[z3.MultiPattern(W.W_RK(y), W.W_KIND(y))])
+        mono = z3.ForAll([y, y2], z3.Implies(z3.And(y >= G(E, "R0"), y < y2, y2 <= E0(E)),
+                                             z3.And(W.W_RK(y) <= W.W_RK(y2), z3.Implies(W.W_KIND(y) == NODE(), W.W_RK(y) < W.W_RK(y2)))),
+                         patterns=[z3.MultiPattern(W.W_RK(y), W.W_RK(y2))])
+        return z3.And(step, mono)
+
+    def pre_state(E, v, o):
+        return z3.And(*[CL(E)["ndata"].items[getattr(names, c)].nz() == G(E, "L0") for c in COLS7], CL(E)["typee"].nz() == G(E, "t0"), to_z3(CL(E)["next_id"], "int") == G(E, "s0"))
+
+    # ---- the stack as (length, node(i), pid(i))
+    def stk(v):
+        st = v[STACK]
+        if st.items is None:
+            return st.nz(), (lambda i: z3.Select(st.cols[0], i)), (lambda i: z3.Select(st.cols[1], i))
+
+        def pick(col, kind):
+            def f(i):
+                z = to_z3(st.items[-1][col], kind) if st.items else z3.IntVal(0)
+                for k in range(len(st.items) - 2, -1, -1):
+                    z = z3.If(i == k, to_z3(st.items[k][col], kind), z)
+                return z
+
+            return f
+
+        return z3.IntVal(len(st.items)), pick(0, "oref"), pick(1, "int")
+
+    def pats(v, *ps):
+        """quantifier patterns over stack entries: only when the stack is symbolic (a concrete stack gives terms without the bound variable)"""
+        return list(ps) if v[STACK].items is None else []
+
+    def beg(E, v, k):
+        m, nd, _ = stk(v)
+        return z3.If(nd(k) != 0, nd(k), z3.If(k == 0, E0(E), nd(k - 1)))
+
+    def cur_ref(E, v):
+        m, nd, _ = stk(v)
+        return z3.If(m == 0, E0(E), beg(E, v, m - 1))
+
+    def pid_of(E, x):
+        return z3.If(x == G(E, "R0"), G(E, "pid0"), z3.If(W.W_KIND(W.W_PAR(x)) == NODE(), G(E, "s0") + W.W_RK(W.W_PAR(x)), z3.IntVal(-1)))
+
+    def type_of(E, x):
+        t = W.W_ENCL(x)
+        return z3.If(t != 0, z3.If(W.W_LABEL(t) == X.str_code("AXON"), z3.IntVal(types.axon), z3.IntVal(types.basal_dendrite)),
+                     z3.Select(G(E, "typee0"), G(E, "t0") - 1))
+
+    def expected(E, c, y):
+        if c == "id":
+            return G(E, "s0") + W.W_RK(y)
+        if c == "pid":
+            return pid_of(E, y)
+        if c == "type":
+            return type_of(E, y)
+        return W.W_V["xyzr".index(c)](y)
+
+    # ---- invariants
+    def j_stack(E, v, o):
+        i = z3.Int(fresh_name("i"))
+        m, nd, _ = stk(v)
+        after = z3.If(i == 0, E0(E), beg(E, v, i - 1))
+        return z3.ForAll([i], z3.Implies(z3.And(i >= 0, i < m, nd(i) != 0), z3.And(in_ast(E, nd(i)), W.W_END(nd(i)) == after)), patterns=pats(v, nd(i)))
+
+    def j_pid(E, v, o):
+        i = z3.Int(fresh_name("i"))
+        m, nd, pd = stk(v)
+        return z3.ForAll([i], z3.Implies(z3.And(i >= 0, i < m, nd(i) != 0), pd(i) == pid_of(E, nd(i))), patterns=pats(v, nd(i)))
+
+    def j_cursor(E, v, o):
+        c = cur_ref(E, v)
+        m, _, _ = stk(v)
+        return z3.And(m >= 0, c >= G(E, "R0"), c <= E0(E))
+
+    def j_counts(E, v, o):
+        c = cur_ref(E, v)
+        return z3.And(to_z3(CL(E)["next_id"], "int") == G(E, "s0") + W.W_RK(c),
+                      *[CL(E)["ndata"].items[getattr(names, col)].nz() == G(E, "L0") + W.W_RK(c) for col in COLS7])
+
+    def j_rows(col):
+        def f(E, v, o):
+            y = z3.Int(fresh_name("y"))
+            c = cur_ref(E, v)
+            lst = CL(E)["ndata"].items[getattr(names, col)]
+            return z3.ForAll([y], z3.Implies(z3.And(y >= G(E, "R0"), y < c, W.W_KIND(y) == NODE()),
+                                             z3.Select(lst.cols[0], G(E, "L0") + W.W_RK(y)) == expected(E, col, y)), patterns=[W.W_RK(y)])
+
+        return f
+
+    def j_old_rows(E, v, o):
+        i = z3.Int(fresh_name("i"))
+        return z3.ForAll([i], z3.Implies(z3.And(i >= 0, i < G(E, "L0")),
+                                         z3.And(*[z3.Select(CL(E)["ndata"].items[getattr(names, c)].cols[0], i) == z3.Select(G(E, "cols0")[c], i) for c in COLS7])))
+
+    def j_types(E, v, o):
+        i, k = z3.Int(fresh_name("i")), z3.Int(fresh_name("k"))
+        m, nd, _ = stk(v)
+        ty = CL(E)["typee"]
+        t, t0 = ty.nz(), G(E, "t0")
+        top = z3.Select(ty.cols[0], t - 1)
+        label_code = lambda x: z3.If(W.W_LABEL(x) == X.str_code("AXON"), z3.IntVal(types.axon), z3.IntVal(types.basal_dendrite))
+        return [
+            ("marker-means-one-tree-type-pushed", z3.ForAll([k], z3.Implies(z3.And(k >= 0, k < m, nd(k) == 0), t == t0 + 1), patterns=pats(v, nd(k)))),
+            ("top-entry-outside-a-tree-means-no-tree-type-pushed", z3.And(t >= t0, t <= t0 + 1, z3.Implies(m == 0, t == t0), z3.Implies(z3.And(m > 0, nd(m - 1) != 0, W.W_ENCL(nd(m - 1)) == 0), t == t0))),
+            ("entry-inside-a-tree-is-not-the-bottom-entry", z3.ForAll([i], z3.Implies(z3.And(i >= 0, i < m, nd(i) != 0, W.W_ENCL(nd(i)) != 0), i >= 1), patterns=pats(v, nd(i)))),
+            ("neighbouring-entries-lie-in-the-same-tree",
+             z3.ForAll([i], z3.Implies(z3.And(i >= 1, i < m, nd(i) != 0, nd(i - 1) != 0), W.W_ENCL(nd(i)) == W.W_ENCL(nd(i - 1))), patterns=pats(v, nd(i)))),
+            ("entries-above-the-marker-lie-in-a-tree",
+             z3.ForAll([i, k], z3.Implies(z3.And(k >= 0, k < i, i < m, nd(k) == 0, nd(i) != 0), W.W_ENCL(nd(i)) != 0), patterns=pats(v, z3.MultiPattern(nd(i), nd(k))))),
+            ("entry-inside-a-tree-sees-that-trees-type-on-top",
+             z3.ForAll([i], z3.Implies(z3.And(i >= 0, i < m, nd(i) != 0, W.W_ENCL(nd(i)) != 0), z3.And(t == t0 + 1, top == label_code(W.W_ENCL(nd(i))))), patterns=pats(v, nd(i)))),
+            ("entries-below-the-marker-are-nodes-outside-any-tree",
+             z3.ForAll([i, k], z3.Implies(z3.And(i >= 0, i < k, k < m, nd(k) == 0), z3.And(nd(i) != 0, W.W_ENCL(nd(i)) == 0)), patterns=pats(v, z3.MultiPattern(nd(i), nd(k))))),
+            ("callers-types-untouched", z3.ForAll([i], z3.Implies(z3.And(i >= 0, i < t0), z3.Select(ty.cols[0], i) == z3.Select(G(E, "typee0"), i)))),
+        ]
+
+    def part(fn, idx):
+        return lambda E, v, o: fn(E, v, o)[idx][1]
+
+    type_labels = ["marker-means-one-tree-type-pushed", "top-entry-outside-a-tree-means-no-tree-type-pushed", "entry-inside-a-tree-is-not-the-bottom-entry", "neighbouring-entries-lie-in-the-same-tree",
+                   "entries-above-the-marker-lie-in-a-tree", "entry-inside-a-tree-sees-that-trees-type-on-top", "entries-below-the-marker-are-nodes-outside-any-tree",
+                   "callers-types-untouched"]
+    INV = ([("stack-is-the-pending-part-of-the-document-in-order", j_stack), ("stack-entries-carry-the-id-of-their-parent-point", j_pid),
+            ("next-pending-node-lies-in-the-document", j_cursor), ("ids-and-row-count-follow-the-points-passed", j_counts), ("earlier-rows-untouched", j_old_rows)]
+           + [(f"row-of-every-point-passed/{c}", j_rows(c)) for c in COLS7]
+           + [(lab, part(j_types, k)) for k, lab in enumerate(type_labels)])
+
+    # ---- proof steps (each its own obligation): what popping a node does to the position in the document
+    def step_hint(E, vars):
+        if "node" not in vars or STACK not in vars or not isinstance(vars["node"], Sym):
+            return
+        nd = to_z3(vars["node"], "oref")
+        E.prove("NeurolucidaAscToSwc.from_ast.<locals>.walk_ast/loop0/step/the-next-pending-node-is-the-one-behind-the-node-just-taken",
+                z3.Implies(nd != 0, cur_ref(E, vars) == nd + 1), "annotation")
+        E.prove("NeurolucidaAscToSwc.from_ast.<locals>.walk_ast/loop0/step/rank-behind-the-node-just-taken",
+                z3.Implies(nd != 0, W.W_RK(nd + 1) == W.W_RK(nd) + z3.If(W.W_KIND(nd) == NODE(), 1, 0)), "annotation")
+        # the counting clause itself, from the quantifier-free facts of the path only (sound: a subset of the hypotheses); the clause
+        # obligation that follows is then the very same term
+        from pyvc.engine import Oblig, _has_quant
+
+        if z3.is_true(z3.simplify(nd != 0)) or any(h.eq(z3.simplify(nd != 0)) or h.eq(z3.Not(nd == 0)) for h in E.pc):
+            goal = z3.simplify(j_counts(E, vars, None))
+            E.obligs.append(Oblig(f"{E.prop}/NeurolucidaAscToSwc.from_ast.<locals>.walk_ast/loop0/step/counts-after-taking-a-node", [h for h in E.pc if not _has_quant(h)], goal,
+                                  "annotation", "annotation"))
+            E.pc.append(goal)
+
+    # ---- postconditions
+    def post_rows(col):
+        def f(E, v, o):
+            y = z3.Int(fresh_name("y"))
+            lst = CL(E)["ndata"].items[getattr(names, col)]
+            return z3.ForAll([y], z3.Implies(z3.And(in_ast(E, y), W.W_KIND(y) == NODE()),
+                                             z3.Select(lst.cols[0], G(E, "L0") + W.W_RK(y)) == expected(E, col, y)), patterns=[W.W_RK(y)])
+
+        return f
+
+    def post_counts(E, v, o):
+        total = W.W_RK(E0(E))
+        return z3.And(to_z3(CL(E)["next_id"], "int") == G(E, "s0") + total, *[CL(E)["ndata"].items[getattr(names, c)].nz() == G(E, "L0") + total for c in COLS7])
+
+    def post_typee(E, v, o):
+        i = z3.Int(fresh_name("i"))
+        ty = CL(E)["typee"]
+        return z3.And(ty.nz() == G(E, "t0"), z3.ForAll([i], z3.Implies(z3.And(i >= 0, i < G(E, "t0")), z3.Select(ty.cols[0], i) == z3.Select(G(E, "typee0"), i))))
+
+    R.add(WALK, prop="C15", setup=setup,
+          requires=[("root-is-the-ROOT-node", pre_root), ("subtrees-are-intervals-of-the-document-order", pre_intervals),
+                    ("children-lie-inside-their-parent-and-know-it", pre_children), ("consecutive-children-are-adjacent-intervals", pre_siblings),
+                    ("kinds-and-tree-labels", pre_kinds), ("rank-counts-the-points-before-a-node", pre_rank), ("accumulators-as-from_ast-hands-them-over", pre_state)],
+          ensures=[("exactly-one-row-per-point-and-ids-continue", post_counts), ("earlier-rows-untouched", j_old_rows), ("callers-type-stack-restored", post_typee)]
+          + [(f"row-of-point-number-k-in-document-order-is-that-point/{c}", post_rows(c)) for c in COLS7],
+          loops={0: dict(invariant=INV, types={STACK: ["oref", "int"]})},
+          options=dict(extend_hook=X.walk_extend_hook, hints={"preserved/next-pending-node-lies-in-the-document": step_hint}),
+          notes="ARBITRARY abstract AST in document order (symbolic size, depth, branch length); rows: id = first free id + number of points before, "
+                "type = label of the enclosing TREE (else the caller's current type), values = the point's, pid = id of the parent point or -1 (the given pid for the root)")
+
+
+# ---------------------------------------------------------------------------
 # ASTNode.add_child / ASTNode.__init__ on REAL objects: the facts the abstract heap model of pyvc/ext_C15.py relies on
 def register_astnode(R):
     from pyvc.values import PList
@@ -583,6 +854,518 @@ def register_astnode(R):
           ensures=[("fields-stored", lambda E, v, o: v["self"].fields["type"] is v["type"] and v["self"].fields["value"] is v["value"] and v["self"].fields["tokens"] is v["tokens"]),
                    ("starts-without-children-and-parent", lambda E, v, o: v["self"].fields["children"].items == [] and "parent" not in v["self"].fields)],
           notes="a fresh node has no children; `parent` stays the class default None")
+
+
+# ===========================================================================
+# Part 3a: the CHARACTER LEVEL of the Lexer over an abstract character stream (pyvc/ext_C15_text.py): symbolic text ch[0..N),
+# symbolic cursor; TextIOBase.read(1) / readline() are the two named io models.  State vocabulary:
+#     p = number of characters handed out by the reader,  next_char = '' or the character just before the cursor,
+#     q = p - len(next_char) = index of the look-ahead character (N at the end of the text).
+# The format (written here from the property text): blanks " \t\n" separate words; each of ( ) | is a word of its own; ';'
+# starts a comment that runs to the end of the line; every other maximal run of non-delimiters is a word; a word is a number
+# iff it is a decimal number in its entirety.
+BLANKS = " \t\n"
+DELIMS = " \t\n();|"
+LEX = f"{ASC}:Lexer."
+
+
+def lexer_obj(S):
+    from pyvc import ext_C15_text as T
+    from swcgeom.transforms.neurolucida_asc import Lexer
+
+    r = T.CharStream(S.int("rpos").z)
+    S.assume(T.NCH >= 0)
+    return S.obj(Lexer, r=r, lineno=S.int("lineno"), column=S.int("column"), next_char=T.SStr.fresh(S.eng, "next_char"))
+
+
+def lexer_sym_setup(S):
+    me = lexer_obj(S)
+    return dict(self=me, __ghost__=dict(reader=me.fields["r"], **LEXGHOST))
+
+
+def lx(v, who="self"):
+    """(p, lo, hi) of a Lexer state: reader cursor and the slice held by next_char"""
+    from pyvc import ext_C15_text as T
+
+    me = v[who]
+    sl = T.as_slice(me.fields["next_char"])
+    if sl is None:
+        raise X.Unsupported("Lexer.next_char is not one piece of the text")
+    return me.fields["r"].pos, sl[0], sl[1]
+
+
+def la(v, who="self"):
+    """index of the look-ahead character"""
+    p, lo, hi = lx(v, who)
+    return p - (hi - lo)
+
+
+def _remaining_chars(eng, args, kwargs):
+    from pyvc import ext_C15_text as T
+
+    return Sym(T.NCH - la({"self": args[0]}), "int")
+
+
+LEXGHOST = {"remaining_chars": SpecFn(_remaining_chars, "remaining_chars")}
+
+
+def lex_wf(E, v, o):
+    from pyvc import ext_C15_text as T
+
+    p, lo, hi = lx(v)
+    n = hi - lo
+    return z3.And(T.NCH >= 0, p >= 0, p <= T.NCH, n >= 0, n <= 1, z3.Implies(n == 1, z3.And(lo == p - 1, p >= 1)), z3.Implies(n == 0, p == T.NCH))
+
+
+LWF = ("lexer-state-wf", lex_wf)
+
+
+def same_reader(E, v, o):
+    f = v["self"].fields
+    if not (f["r"] is E.spec_extra["reader"] and set(f) - {"g_cur"} == {"r", "lineno", "column", "next_char"}):
+        return False
+    if "g_cur" in f:  # ghost field of the token-stream link (number of tokens handed out so far, minus one): only the link's ghost code writes it
+        return o is not None and "g_cur" in o["self"].fields and to_z3(f["g_cur"], "int") == to_z3(o["self"].fields["g_cur"], "int")
+    return True
+
+
+READER = ("reader-is-the-same-object-and-no-attribute-added", same_reader)
+
+
+def li(v, f):
+    return to_z3(v["self"].fields[f], "int")
+
+
+def counted(E, v, o, p0, p1, extra_lines=0):
+    """lineno / column after reading the characters p0 .. p1-1 one by one"""
+    from pyvc import ext_C15_text as T
+
+    return z3.And(li(v, "lineno") == li(o, "lineno") + T.NLC(p1) - T.NLC(p0) + extra_lines,
+                  li(v, "column") == z3.If(T.LNL(p1) >= p0, p1 - T.LNL(p1), li(o, "column") + p1 - p0))
+
+
+def lex_defs(E, fr):
+    from pyvc import ext_C15_text as T
+
+    T.define_positions(E, BLANKS, DELIMS)
+
+
+def blank(c):
+    from pyvc import ext_C15_text as T
+
+    return T.in_set(c, BLANKS)
+
+
+def delim(c):
+    from pyvc import ext_C15_text as T
+
+    return T.in_set(c, DELIMS)
+
+
+def word_at(E, v, o, result):
+    """the word that starts at the first non-blank at or after the old look-ahead, and where the look-ahead stands afterwards"""
+    from pyvc import ext_C15_text as T
+
+    q0, q1 = la(o), la(v)
+    s = T.SKIP(q0)
+    return z3.If(s == T.NCH, z3.And(T.slen(result) == 0, q1 == T.NCH),
+                 z3.If(delim(T.CH(s)), z3.And(T.is_text(result, s, s + 1), q1 == s + 1),
+                       z3.And(T.is_text(result, s, T.WEND(s)), q1 == T.WEND(s))))
+
+
+def number_languages():
+    """language keys: the number test the code applies to a word (read from the repository), and the reference languages"""
+    from contracts import regex_facts as RF
+    from pyvc import ext_C15_text as T
+
+    (method, ptxt, fl), _ = RF.asc_patterns()
+    return dict(code=T.code_lang(ptxt, fl, method), code_whole=T.code_lang(ptxt, fl, "fullmatch"), asc=("ref", "ASC_NUMBER"), plain=("ref", "PLAIN_DECIMAL"),
+                pyfloat=T.PY_FLOAT_LANG)
+
+
+def language_transfer(E, fr):
+    """inclusions between languages, each discharged as a regex obligation of this property, used on slices of the text"""
+    from pyvc import ext_C15_text as T
+
+    K = number_languages()
+    lo, hi, j = z3.Int("lt!lo"), z3.Int("lt!hi"), z3.Int("lt!j")
+    inl = lambda k: T.inl(K[k], lo, hi)
+    is_word = z3.And(lo < hi, z3.ForAll([j], z3.Implies(z3.And(j >= lo, j < hi), z3.Not(delim(T.CH(j))))))
+    facts = [
+        ("number-token-is-entirely-a-number", z3.Implies(z3.And(inl("code"), is_word, inl("pyfloat")), inl("asc")), [inl("code")]),
+        ("plain-decimal-numbers-are-numbers", z3.Implies(inl("plain"), inl("code")), [inl("plain")]),
+        ("asc-number-converts", z3.Implies(inl("asc"), inl("pyfloat")), [inl("asc")]),
+        ("number-pattern-converts", z3.Implies(inl("code_whole"), inl("pyfloat")), [inl("code_whole")]),
+        ("plain-decimal-is-an-asc-number", z3.Implies(inl("plain"), inl("asc")), [inl("plain")]),
+    ]
+    for lab, body, pats in facts:
+        E.assume(z3.ForAll([lo, hi], body, patterns=pats))
+        E.assumptions.add(f"language transfer: the inclusion proved as obligation C15/regex/{lab} is used for every slice text[lo:hi) of the document")
+
+
+def word_accumulator():
+    """name of the local of Lexer._read_word that accumulates the word: the one initialised with the empty string literal
+    (read from the current source, so that renaming it does not detach the loop contract)"""
+    import ast as _ast
+
+    from pyvc import extract
+
+    node, _, _ = extract.find(LEX + "_read_word")
+    names = [t.id for st in node.body if isinstance(st, _ast.Assign) and isinstance(st.value, _ast.Constant) and st.value.value == ""
+             for t in st.targets if isinstance(t, _ast.Name)]
+    if len(names) != 1:
+        raise X.Unsupported("Lexer._read_word: expected exactly one local initialised with '' (the word accumulator): contract needs re-anchoring")
+    return names[0]
+
+
+def register_lexer_chars(R):
+    from pyvc import ext_C15_text as T
+
+    T.install()
+    fresh_str = lambda name: (lambda S, frame: T.SStr.fresh(S.eng, name))
+    try:
+        ACC = word_accumulator()
+    except Exception:  # reported when the carrier is verified (KeyError -> machinery error), not at import time
+        ACC = "token"
+
+    # ------------------------------------------------------------- __init__
+    def init_setup(S):
+        from swcgeom.transforms.neurolucida_asc import Lexer
+
+        r = T.CharStream(z3.IntVal(0))
+        S.assume(T.NCH >= 0)
+        S.assume(z3.And(T.NLC(0) == 0, T.LNL(0) == -1))
+        S.eng.assumptions.add(T.A_COUNT)
+        return dict(self=S.obj(Lexer), r=r, __ghost__=dict(reader=r, **LEXGHOST))
+
+    def init_ghost(E, v, o):
+        v["self"].fields["g_cur"] = -1  # ghost: no token handed out yet (pyvc/ext_C15.py: linked next())
+
+    R.add(LEX + "__init__", prop="C15", setup=init_setup, ghost_exit=init_ghost, options=dict(ghost_exit_inlined=True),
+          ensures=[LWF, ("reader-stored-and-no-other-attribute", lambda E, v, o: v["self"].fields["r"] is E.spec_extra["reader"]
+                         and set(v["self"].fields) == {"r", "lineno", "column", "next_char", "g_cur"}),
+                   ("look-ahead-is-the-first-character", lambda E, v, o: la(v) == z3.If(T.NCH > 0, 0, T.NCH)),
+                   ("position-starts-at-1:1", lambda E, v, o: z3.And(li(v, "lineno") == 1, li(v, "column") == 1))],
+          notes="abstract character stream with the cursor at 0")
+
+    # ----------------------------------------------------------- _read_char
+    def char_read(E, v, o):
+        p0, _, _ = lx(o)
+        p1, lo, hi = lx(v)
+        res = to_z3(v["result"], "bool")
+        nl = T.CH(p0) == T.NEWLINE
+        return z3.If(p0 < T.NCH,
+                     z3.And(res, p1 == p0 + 1, lo == p0, hi == p0 + 1, T.count_step(p0),
+                            li(v, "lineno") == li(o, "lineno") + z3.If(nl, 1, 0), li(v, "column") == z3.If(nl, 1, li(o, "column") + 1)),
+                     z3.And(z3.Not(res), p1 == p0, hi == lo, li(v, "lineno") == li(o, "lineno"), li(v, "column") == li(o, "column")))
+
+    R.add(LEX + "_read_char", prop="C15", setup=lexer_sym_setup, requires=[LWF], modifies=["self"], returns="bool",
+          ensures=[LWF, READER,
+                   ("consumes-exactly-one-character-or-nothing-at-the-end-and-counts-the-line-break", char_read)],
+          notes="abstract character stream")
+
+    # ----------------------------------------------------------- _read_word
+    def skipped(E, v, o, entry=None):
+        j = z3.Int(fresh_name("j"))
+        q0, q = la(o), la(v)
+        return z3.ForAll([j], z3.Implies(z3.And(j >= q0, j < q), blank(T.CH(j))))
+
+    def book(E, v, o, entry=None):
+        return counted(E, v, o, lx(o)[0], lx(v)[0])
+
+    def token_so_far(E, v, o, entry=None):
+        s, q = la(entry), la(v)
+        return z3.And(s == T.SKIP(la(o)), q >= s, T.is_text(v[ACC], s, q))
+
+    def token_chars(E, v, o, entry=None):
+        j = z3.Int(fresh_name("j"))
+        s, q = la(entry), la(v)
+        return z3.ForAll([j], z3.Implies(z3.And(j >= s, j < q), z3.Not(delim(T.CH(j)))))
+
+    R.add(LEX + "_read_word", prop="C15", setup=lexer_sym_setup, requires=[LWF], modifies=["self"], returns=fresh_str("word"), lemmas=[lex_defs],
+          ensures=[LWF, READER,
+                   ("skips-the-blanks-then-returns-one-delimiter-or-the-maximal-run-of-non-delimiters-and-stops-right-behind-it",
+                    lambda E, v, o: word_at(E, v, o, v["result"])),
+                   ("position-counts-the-characters-read", book)],
+          loops={0: dict(invariant=[LWF, READER, ("look-ahead-never-moves-back", lambda E, v, o: la(v) >= la(o)), ("only-blanks-skipped", skipped), ("position-counts-the-characters-read", book)],
+                         decreases="remaining_chars(self)"),
+                 1: dict(invariant=[LWF, READER, ("token-is-the-text-from-the-first-non-blank-to-the-look-ahead", token_so_far),
+                                    ("no-delimiter-in-the-token-so-far", token_chars), ("position-counts-the-characters-read", book)],
+                         rebind={ACC: lambda eng, cur: T.SStr.fresh(eng, "token")}, decreases="remaining_chars(self)")},
+          notes="abstract character stream; symbolic number of blanks and symbolic word length")
+
+    # ----------------------------------------------------------- _read_line
+    def line_read(E, v, o):
+        q0 = la(o)
+        e = T.EOL(q0)
+        return z3.And(T.is_text(v["result"], q0, e), la(v) == z3.If(e < T.NCH, e + 1, T.NCH))
+
+    R.add(LEX + "_read_line", prop="C15", setup=lexer_sym_setup, requires=[LWF], modifies=["self"], returns=fresh_str("line"), lemmas=[lex_defs],
+          ensures=[LWF, READER,
+                   ("returns-the-rest-of-the-line-and-consumes-exactly-through-its-line-break-and-nothing-after-it", line_read),
+                   ("starts-a-new-line", lambda E, v, o: z3.And(li(v, "lineno") == li(o, "lineno") + 1, li(v, "column") == 1))],
+          notes="abstract character stream; the comment text is text[q : first line break at or after q)")
+
+    # --------------------------------------------------------------- _token
+    def token_setup(S):
+        from swcgeom.transforms.neurolucida_asc import TokenType
+
+        d = lexer_sym_setup(S)
+        d.update(type=TokenType.LITERAL, value=T.SStr.fresh(S.eng, "value"))
+        return d
+
+    R.add(LEX + "_token", prop="C15", setup=token_setup, pure_inline=True,
+          ensures=[("token-carries-type-value-and-the-lexer-position",
+                    lambda E, v, o: v["result"].fields["type"] is v["type"] and v["result"].fields["value"] is v["value"]
+                    and z3.And(to_z3(v["result"].fields["lineno"], "int") == li(o, "lineno"), to_z3(v["result"].fields["column"], "int") == li(o, "column"))),
+                   ("lexer-untouched", lambda E, v, o: z3.And(*[a == b for a, b in zip(lx(v), lx(o))], li(v, "lineno") == li(o, "lineno"), li(v, "column") == li(o, "column")))])
+
+    # ------------------------------------------------------------- __next__
+    def tok(v):
+        return v["result"]
+
+    def ttype(v, name):
+        return X.token_type_z(tok(v)) == X.tt(name)
+
+    def tval_text(v, lo, hi):
+        val = X.token_text(tok(v))
+        return T.is_text(val, lo, hi) if val is not None else z3.BoolVal(False)
+
+    def start(o):
+        return T.SKIP(la(o))
+
+    def single_char_tokens(E, v, o):
+        s = start(o)
+        c = T.CH(s)
+        one = lambda ch, name: z3.Implies(c == ord(ch), z3.And(ttype(v, name), tval_text(v, s, s + 1), la(v) == s + 1))
+        return z3.And(s < T.NCH, one("(", "BRACKET_LEFT"), one(")", "BRACKET_RIGHT"), one("|", "OR"))
+
+    def comment_token(E, v, o):
+        s = start(o)
+        e = T.EOL(s + 1)
+        return z3.Implies(T.CH(s) == ord(";"), z3.And(ttype(v, "COMMENT"), tval_text(v, s + 1, e), la(v) == z3.If(e < T.NCH, e + 1, T.NCH)))
+
+    def word_token(E, v, o):
+        s = start(o)
+        e = T.WEND(s)
+        K = number_languages()
+        val = X.token_real(tok(v))
+        is_float = z3.And(ttype(v, "FLOAT"), T.inl(K["asc"], s, e), (val == T.FVAL(s, e)) if val is not None else z3.BoolVal(False))
+        is_lit = z3.And(ttype(v, "LITERAL"), tval_text(v, s, e))
+        # which of the two: decided by the number test the code applies to the word (its LANGUAGE, read from the repository); the format bounds
+        # that language from both sides: a FLOAT token is a decimal number in its entirety, a plain decimal is a FLOAT token
+        return z3.Implies(z3.Not(delim(T.CH(s))), z3.And(la(v) == e, z3.If(T.inl(K["code"], s, e), is_float, is_lit), z3.Implies(T.inl(K["plain"], s, e), ttype(v, "FLOAT"))))
+
+    def next_book(E, v, o):
+        s = start(o)
+        p0, p1 = lx(o)[0], lx(v)[0]
+        is_comment = T.CH(s) == ord(";")
+        pw = z3.If(s + 2 <= T.NCH, s + 2, T.NCH)  # reader cursor after the ';' became a word of its own
+        t = tok(v)
+        return z3.And(z3.If(is_comment, z3.And(li(v, "lineno") == li(o, "lineno") + T.NLC(pw) - T.NLC(p0) + 1, li(v, "column") == 1), counted(E, v, o, p0, p1)),
+                      to_z3(t.fields["lineno"], "int") == li(v, "lineno"), to_z3(t.fields["column"], "int") == li(v, "column"))
+
+    def not_a_number(E, v, o):
+        s = start(o)
+        K = number_languages()
+        return z3.And(s < T.NCH, z3.Not(delim(T.CH(s))), z3.Not(T.inl(K["asc"], s, T.WEND(s))))
+
+    def token_result(S, frame):
+        """shape of the token at call sites: a Token whose type is an unknown TokenType member, whose value has a text part and a number part"""
+        from swcgeom.transforms.neurolucida_asc import Token, TokenType
+
+        ty = S.int("tok_type")
+        S.assume(z3.And(ty.z >= 1, ty.z <= len(TokenType)))
+        return S.obj(Token, type=X.SymEnum(ty.z, TokenType), value=X.TokenValue(S.real("tok_number").z, T.SStr.fresh(S.eng, "tok_text")),
+                     lineno=S.int("tok_lineno"), column=S.int("tok_column"))
+
+    R.add(LEX + "__next__", prop="C15", setup=lexer_sym_setup, requires=[LWF], modifies=["self"], returns=token_result, lemmas=[lex_defs, language_transfer],
+          raises={"StopIteration": ("only-when-nothing-but-blanks-is-left", lambda E, v, o: start(o) == T.NCH),
+                  "ValueError": ("only-for-a-word-that-is-not-a-decimal-number", not_a_number)},
+          ensures=[LWF, READER,
+                   ("open-close-and-bar-are-tokens-of-their-own", single_char_tokens),
+                   ("comment-token-is-the-rest-of-the-line-and-the-next-token-starts-right-behind-its-line-break", comment_token),
+                   ("word-token-is-the-WHOLE-maximal-run-of-non-delimiters-FLOAT-iff-it-is-a-number-with-its-value", word_token),
+                   ("token-position-is-the-lexer-position-which-counts-the-characters-read", next_book),
+                   ("every-token-consumes-at-least-one-character", lambda E, v, o: la(v) > la(o))],
+          options=dict(raises_ensures={"StopIteration": [LWF, READER, ("the-lexer-stays-at-the-end-of-the-text", lambda E, v, o: la(v) == T.NCH)]}),
+          notes="abstract character stream: the token and the new look-ahead are functions of the text from the old look-ahead on; "
+                "number test and float() through their languages (regex obligations C15/regex/*)")
+
+
+# ===========================================================================
+# Part 3b: THE LINK between the two levels.  The Parser contracts of Part 1 see `next(self.lexer, None)` as an abstract token
+# stream tok[0..NTOK).  Here the only function that touches the lexer, Parser._read_token (and Parser.__init__, which creates it),
+# is verified on a REAL Lexer over the abstract character stream, with Lexer.__next__ used through its contract: it satisfies the
+# same postconditions the abstract model gives.  The token-stream vocabulary is defined from the text (pyvc/ext_C15.py: A_LINK):
+#     TPOS(k) look-ahead before token k,  NTOK = least k with nothing but blanks after TPOS(k),  TTYPE / TVAL(k) of the token lexed there.
+# Coupling invariant: with c = g_cur (index of the parser's look-ahead token), the lexer's look-ahead is TPOS(c + 1) while
+# c + 1 <= NTOK, and the end of the text afterwards.
+def linked_parser(S, fresh_parser=False):
+    from swcgeom.transforms.neurolucida_asc import Parser
+
+    lex = lexer_obj(S)
+    lex.fields["g_cur"] = S.int("cur")
+    heap = X.new_heap(S)
+    me = S.obj(Parser, lexer=lex, next_token=fresh("oref", "next_token"), source="", g_tip=fresh("ref", "tip"), g_heap=heap)
+    S.eng.ghost["c15"] = {"heap": heap}
+    S.assume(DEPTH(0) == 0)
+    return me
+
+
+def lexer_of(v):
+    return {"self": v["self"].fields["lexer"]}
+
+
+def stream_defs(E, fr):
+    """the definition of NTOK (and the start of TPOS) over the text"""
+    from pyvc import ext_C15_text as T
+
+    k = z3.Int("sd!k")
+    E.assumptions.add(X.A_LINK)
+    E.assume(z3.And(NTOK >= 0, X.TPOS(0) == 0, T.SKIP(X.TPOS(NTOK)) == T.NCH,
+                    z3.ForAll([k], z3.Implies(z3.And(k >= 0, k < NTOK), z3.And(X.TPOS(k) >= 0, T.SKIP(X.TPOS(k)) < T.NCH)), patterns=[X.TPOS(k)])))
+
+
+def coupled(E, v, o):
+    from pyvc import ext_C15_text as T
+
+    c = cur(v)
+    q = la(lexer_of(v))
+    return z3.And(z3.Implies(c + 1 <= NTOK, q == X.TPOS(c + 1)), z3.Implies(c + 1 > NTOK, q == T.NCH))
+
+
+def register_link(R):
+    from pyvc import ext_C15_text as T
+
+    LLWF = ("lexer-state-wf", lambda E, v, o: lex_wf(E, lexer_of(v), None))
+    COUPLED = ("lexer-look-ahead-is-the-start-of-the-next-token", coupled)
+    heap_ok = lambda v: z3.And(H(v, "n") >= 0, H(v, "clock") >= 0)
+
+    def link_setup(S):
+        me = linked_parser(S)
+        return dict(self=me, __ghost__=dict(reader=me.fields["lexer"].fields["r"], **LEXGHOST))
+
+    def lexer_kept(E, v, o):
+        lexv, lexo = v["self"].fields["lexer"], o["self"].fields["lexer"]
+        return (isinstance(lexv, Obj) and lexv.fields["r"] is E.spec_extra["reader"] and set(lexv.fields) == set(lexo.fields)
+                and set(v["self"].fields) == set(o["self"].fields) and v["self"].fields["source"] == o["self"].fields["source"])
+
+    def only_two_touch_the_lexer(E, v, o):
+        """structural: `self.lexer` occurs in Parser.__init__ and Parser._read_token only, so the simulation step below covers every use"""
+        import ast as _ast
+
+        from pyvc import extract
+
+        src = open(os.path.join(extract.REPO, ASC)).read()
+        for cls in [n for n in _ast.parse(src).body if isinstance(n, _ast.ClassDef) and n.name == "Parser"]:
+            for fn in [n for n in cls.body if isinstance(n, _ast.FunctionDef) and n.name not in ("__init__", "_read_token")]:
+                if any(isinstance(x, _ast.Attribute) and x.attr == "lexer" for x in _ast.walk(fn)):
+                    return False
+        return True
+
+    # ------------------------------------------------------------ _read_token (linked)
+    R.add(P + "_read_token", prop="C15", setup=link_setup, lemmas=[lex_defs, stream_defs],
+          requires=[("parser-state-wf-before-or-after-the-first-token", lambda E, v, o: z3.And(cur(v) >= -1, z3.Implies(cur(v) >= 0, nxt(v) == tokref(cur(v))), heap_ok(v))),
+                    LLWF, COUPLED],
+          raises=LEXERR,
+          ensures=[WF, LLWF, COUPLED, consumed(1), ("heap-untouched", heap_unchanged), TIP_KEPT,
+                   ("depth-follows-the-consumed-token", lambda E, v, o: X.depth_step(cur(o))),
+                   ("same-lexer-same-reader-nothing-else-touched", lexer_kept),
+                   ("call-graph/only-__init__-and-_read_token-touch-the-lexer", only_two_touch_the_lexer)],
+          notes="REAL Lexer over the abstract character stream, Lexer.__next__ through its contract: the abstract token-stream model of next(lexer, None) "
+                "used by the other Parser contracts is what this function really does (simulation step; ghost definitions A_LINK)")
+
+    # --------------------------------------------------------------- __init__ (linked)
+    def init_setup(S):
+        from swcgeom.transforms.neurolucida_asc import Parser
+
+        r = T.CharStream(z3.IntVal(0))
+        heap = X.new_heap(S)
+        S.eng.ghost["c15"] = {"heap": heap}
+        S.assume(z3.And(T.NCH >= 0, T.NLC(0) == 0, T.LNL(0) == -1, DEPTH(0) == 0, heap.fields["n"].z >= 0, heap.fields["clock"].z >= 0))
+        S.eng.assumptions.add(T.A_COUNT)
+        me = S.obj(Parser, g_tip=fresh("ref", "tip"), g_heap=heap)
+        return dict(self=me, r=r, source="a.asc", __ghost__=dict(reader=r, **LEXGHOST))
+
+    def init_fields(E, v, o):
+        f = v["self"].fields
+        return (set(f) == {"lexer", "next_token", "source", "g_tip", "g_heap"} and f["source"] == "a.asc" and isinstance(f["lexer"], Obj)
+                and f["lexer"].fields["r"] is E.spec_extra["reader"])
+
+    def parser_ghost(E, v, o):
+        """ghost fields of a Parser (AST heap, branch tip): installed by ghost code when the constructor runs inlined in another carrier"""
+        f = v["self"].fields
+        if "g_heap" not in f:
+            f["g_heap"] = E.ghost["c15"]["heap"]
+            f["g_tip"] = fresh("ref", "tip")
+
+    R.add(P + "__init__", prop="C15", setup=init_setup, lemmas=[lex_defs, stream_defs], raises=LEXERR,
+          ghost_exit=parser_ghost, options=dict(ghost_exit_inlined=True),
+          ensures=[WF, LLWF, COUPLED, ("look-ahead-is-the-first-token", lambda E, v, o: cur(v) == 0),
+                   ("lexer-on-the-given-reader-and-source-stored", init_fields),
+                   ("heap-untouched", lambda E, v, o: heap_unchanged(E, v, dict(self=E.top_old["self"])))],
+          notes="creates the REAL Lexer on the abstract character stream and reads the first token: establishes the state every other Parser contract assumes")
+
+
+# ===========================================================================
+# Part 3c: NeurolucidaAscToSwc.from_stream (the observation point of the property) for the REJECTION half: the tree is built only
+# from an AST that Parser.parse returned, and parse returns only for a complete document.  from_ast is used through an ASSUMED
+# contract without postconditions (it is reached only after parse returned; what it computes is Part 2's subject).
+FROM_AST = f"{ASC}:NeurolucidaAscToSwc.from_ast"
+FROM_STREAM = f"{ASC}:NeurolucidaAscToSwc.from_stream"
+
+
+def register_from_stream(R):
+    from pyvc import ext_C15_text as T
+
+    R.add(FROM_AST, prop="C15", trusted=True, returns=lambda S, frame: S.opaque({}, "tree"),
+          notes="ASSUMED, no postcondition: from_ast returns some object without raising and without touching the parser (its rows: walk_ast, Part 2)")
+
+    def setup(S):
+        from swcgeom.transforms.neurolucida_asc import NeurolucidaAscToSwc
+
+        r = T.CharStream(z3.IntVal(0))
+        heap = X.new_heap(S)
+        S.eng.ghost["c15"] = {"heap": heap}
+        S.assume(z3.And(T.NCH >= 0, T.NLC(0) == 0, T.LNL(0) == -1, DEPTH(0) == 0, heap.fields["n"].z >= 0, heap.fields["clock"].z >= 0))
+        S.eng.assumptions.add(T.A_COUNT)
+        return dict(cls=NeurolucidaAscToSwc, x=r, source="a.asc", __ghost__=dict(reader=r, **LEXGHOST))
+
+    def the_parser(E, v):
+        """the Parser object the carrier created (whatever local holds it)"""
+        from swcgeom.transforms.neurolucida_asc import Parser
+
+        ps = {id(x): x for x in v.values() if isinstance(x, Obj) and x.cls is Parser}
+        ps.update({id(a["self"]): a["self"] for nm, a in E.call_log if nm.startswith("Parser.") and isinstance(a.get("self"), Obj)})
+        if len(ps) != 1:
+            raise X.Unsupported("from_stream: expected exactly one Parser object")
+        return next(iter(ps.values()))
+
+    def parsed_completely(E, v, o):
+        c = next(x for x in R.alts[P + "parse"] if x.prop == "C15" and not x.variants)
+        return _clause_of(c, "returns-only-for-a-complete-document")(E, {"self": the_parser(E, v)}, None)
+
+    def tree_of_the_parsed_ast(E, v, o):
+        made = [a for nm, a in E.call_log if nm == "NeurolucidaAscToSwc.from_ast"]
+        parsed = [a for nm, a in E.call_log if nm == "Parser._parse"]
+        if not (len(made) == 1 and len(parsed) == 1 and "__result__" in parsed[0] and v["result"] is made[0].get("__result__") and isinstance(made[0]["ast"], Sym)):
+            return False  # e.g. a tree made although _parse did not return
+        return to_z3(made[0]["ast"], "ref") == to_z3(parsed[0]["__result__"], "ref")
+
+    R.add(FROM_STREAM, prop="C15", setup=setup, lemmas=[lex_defs, stream_defs, lambda E, fr: _k0(E)],
+          raises={"ValueError": ("every-failure-surfaces-as-ValueError", MAY)},
+          ensures=[("returns-only-for-a-complete-document", parsed_completely),
+                   ("result-is-the-tree-from_ast-made-of-the-AST-parse-returned", tree_of_the_parsed_ast)],
+          notes="REAL Lexer over the abstract character stream, Parser.__init__ / parse inlined, _parse through its contract; from_ast assumed (no postcondition)")
+
+
+def _k0(E):
+    """the definition of K0 (number of leading COMMENT tokens), as in Parser._parse's own proof"""
+    j = z3.Int(fresh_name("j"))
+    E.assume(z3.And(K0 >= 0, K0 <= NTOK, z3.ForAll([j], z3.Implies(z3.And(j >= 0, j < K0), TTYPE(j) == T("COMMENT"))),
+                    z3.Or(K0 == NTOK, TTYPE(K0) != T("COMMENT"))))
+    E.assumptions.add("ghost definition: K0 = number of leading COMMENT tokens of the stream (least index of a non-comment token, or N)")
 
 
 # ===========================================================================
@@ -669,12 +1452,14 @@ def register_lexer(R):
           ensures=[("token-type-and-value-of-the-WHOLE-word", token_ok),
                    ("cursor-just-after-the-token", lambda E, v, o: (isinstance(expect(E), tuple) and unread(E, v) == expect(E)[2])
                     or (expect(E) == "MALFORMED" and unread(E, v) == LEX_CASES[E.variant][0][len(LEX_CASES[E.variant][0].split()[0].rstrip(")")):]))],
+          options=dict(registry={}),  # concrete text: the real helpers are executed (inlined), not used through their character-level contracts
           notes="EFFECTIVELY BOUNDED: 19 concrete inputs (numbers, malformed numbers, brackets, bar, comments, literals, end of input); "
                 "regex matching and float() run natively on the concrete word")
 
     R.add(LEX + "_read_word", prop="C15", variants={k: lexer_setup(t) for k, (t, _) in WORD_CASES.items()},
           ensures=[("maximal-run-of-non-delimiters-or-one-delimiter", lambda E, v, o: v["result"] == WORD_CASES[E.variant][1][0]),
                    ("cursor-advanced-by-exactly-the-blanks-and-the-word", lambda E, v, o: unread(E, v) == WORD_CASES[E.variant][1][1])],
+          options=dict(registry={}),
           notes="EFFECTIVELY BOUNDED: 10 concrete inputs covering every delimiter")
 
 
@@ -803,8 +1588,105 @@ def register(R):
     register_core(R)
     register_acceptance(R)
     register_walk(R)
+    register_walk_general(R)
     register_astnode(R)
+    register_lexer_chars(R)
+    register_link(R)
+    register_from_stream(R)
     register_lexer(R)
+
+
+# ===========================================================================
+# Lemmas over the contracts above (ghost programs; the clause functions are fetched from the registered contracts by label, so a
+# contract that is weakened or renamed breaks the lemma or makes it impossible to state - a machinery error, never a silent pass)
+def _clause_of(contract, label, where="ensures"):
+    from pyvc.spec import split_label
+
+    for j, cl in enumerate(getattr(contract, where)):
+        lab, body = split_label(cl, f"{where}{j}")
+        if lab == label:
+            return body
+    raise KeyError(f"{contract.key}: no {where} clause labelled {label!r} (a lemma of contracts/C15.py is stated over it)")
+
+
+def lemmas():
+    """PREMATURE END OF THE DOCUMENT (token level).  A stream in which the bracket opened by the document's first '(' is never closed
+    (bracket depth >= 1 at every position behind it, up to and including the end of the stream) cannot make Parser._parse / Parser.parse
+    return normally: their postcondition `returns only for a complete document` is unsatisfiable on such a stream.  Both functions list
+    ValueError (parse) resp. the parser's own error classes (_parse) as their only exceptional exits, every loop has a variant: so a
+    prematurely ended document is REJECTED WITH AN ERROR (partial correctness for the mutual recursion of the descent)."""
+    from pyvc.spec import Registry
+    from pyvc.verify import Setup, Verifier
+
+    R = Registry()
+    register(R)
+    out = []
+    for key, label in ((P + "_parse", "returns-only-after-the-close-matching-the-first-open-at-depth-0-inside-the-stream"),
+                       (P + "parse", "returns-only-for-a-complete-document")):
+        c = next(x for x in R.alts[key] if x.prop == "C15" and not x.variants)
+        E = Verifier(R, "C15")
+        E.variant = ""
+        S = Setup(E)
+        before, after = {"self": parser_obj(S)}, {"self": parser_obj(S)}  # an arbitrary entry state and an arbitrary exit state
+        E.assume(cur(before) == 0)
+        for lm in c.lemmas:  # the definition of K0 (leading comments), as in the carrier's own proof
+            lm(E, None)
+        j = z3.Int("tr!j")
+        E.assume(z3.ForAll([j], z3.Implies(z3.And(j > K0, j <= NTOK), DEPTH(j) >= 1)))  # the first '(' is never closed inside the stream
+        complete = _clause_of(c, label)(E, dict(after, result=fresh("ref", "root")), before)
+        out.append((f"premature-end/{key.split('.')[-1]}-cannot-return-normally-when-the-first-open-bracket-is-never-closed", list(E.pc), z3.Not(complete)))
+        out.append((f"cover:premature-end/{key.split('.')[-1]}", list(E.pc), None))
+    return out
+
+
+def lexer_function_lemma():
+    """THE TOKEN SEQUENCE IS A FUNCTION OF THE CHARACTER SEQUENCE.  Two arbitrary outcomes of Lexer.__next__ that both satisfy its
+    postconditions for the same text and the same state before the call are the same outcome: same token (type; number for a FLOAT,
+    text otherwise; position), same new look-ahead, same line / column counters.  (So TPOS / TTYPE / TVAL of pyvc/ext_C15.py are well
+    defined, and what follows a comment depends on nothing but the text behind its line break.)"""
+    from pyvc import ext_C15_text as T
+    from pyvc.spec import Registry, split_label
+    from pyvc.verify import Setup, Verifier
+
+    R = Registry()
+    register(R)
+    c = next(x for x in R.alts[LEX + "__next__"] if x.prop == "C15" and not x.variants)
+    E = Verifier(R, "C15")
+    E.variant = ""
+    S = Setup(E)
+    before = {"self": lexer_obj(S)}
+    E.spec_extra.update(LEXGHOST)
+    for lm in c.lemmas:
+        lm(E, None)
+    for cl in c.requires:
+        E.assume(split_label(cl, "pre")[1](E, before, None))
+    outcomes = []
+    for k in (1, 2):
+        after = {"self": lexer_obj(S), "result": c.returns(S, None)}
+        for j, cl in enumerate(c.ensures):
+            lab, body = split_label(cl, f"post{j}")
+            if lab == READER[0]:
+                continue  # object identity of the reader: not a fact about values
+            E.assume(body(E, after, before))
+        outcomes.append(after)
+    a, b = outcomes
+    ta, tb = a["result"], b["result"]
+    (pa, loa, hia), (pb, lob, hib) = lx(a), lx(b)
+    sa, sb = T.as_slice(X.token_text(ta)), T.as_slice(X.token_text(tb))
+    is_float = X.token_type_z(ta) == X.tt("FLOAT")
+    same_value = z3.If(is_float, X.token_real(ta) == X.token_real(tb), z3.And(sa[1] - sa[0] == sb[1] - sb[0], z3.Or(sa[1] == sa[0], sa[0] == sb[0])))
+    goal = z3.And(X.token_type_z(ta) == X.token_type_z(tb), same_value, pa == pb, hia - loa == hib - lob, z3.Or(hia == loa, loa == lob),
+                  li(a, "lineno") == li(b, "lineno"), li(a, "column") == li(b, "column"),
+                  *[to_z3(ta.fields[f], "int") == to_z3(tb.fields[f], "int") for f in ("lineno", "column")])
+    return [("lexer/the-next-token-and-the-new-look-ahead-are-functions-of-the-text-and-the-old-look-ahead", list(E.pc), goal),
+            ("cover:lexer/next-is-a-function", list(E.pc), None)]
+
+
+_lemmas_premature_end = lemmas
+
+
+def lemmas():  # noqa: F811
+    return _lemmas_premature_end() + lexer_function_lemma()
 
 
 def regex_facts():
